@@ -563,6 +563,13 @@ def race_run(c, n):
     reports = p.stderr.split("WARNING: DATA RACE")[1:]
     inrepo = [r for r in reports if "github.com/ucan-wg/go-ucan" in r or "/repo/" in r]
     c.extra["race_detector"] = dict(reports=len(reports), in_go_ucan=len(inrepo), rounds=n, exit=p.returncode)
+    if "fatal error: concurrent map" in p.stderr:
+        # the Go runtime itself aborted the program: unsynchronised map access between the read-only operations
+        first = [ln.strip() for ln in p.stderr.splitlines() if "go-ucan" in ln or "/repo/" in ln][:6]
+        c.violations.append(dict(kind="race", family="race", case=dict(runtime_fatal="concurrent map access", stack=first),
+                                 expect="no data race between read-only operations", actual="fatal error: concurrent map read/write (Go runtime)",
+                                 note="concurrent read-only operations on shared tokens crash the Go runtime with a concurrent map access"))
+        return ""
     if p.returncode not in (0, 66):
         raise Machinery("race build of the harness failed to run (rc=%s): %s" % (p.returncode, p.stderr[-1500:]))
     for r in inrepo[:3]:
